@@ -258,7 +258,7 @@ theorem pairStep_elem (h : Fam c A B T q fs) (bs : List FieldSpec) (aOf bOf : St
         (⟨stepB B T q bs, [pointL q done.length i]⟩, some pos)
       = .ok (⟨[(q, .arr (done ++ elemAB aOf bOf i :: rest))], calls⟩, next) := by
   unfold pairStep
-  simp only [hresp, Option.getD_some, parseOne_child h bs (pointL q done.length i) (bOf i), bind, Except.bind, elemA,
+  simp only [hresp, Option.getD_some, parseOne_child h.toFamT bs (pointL q done.length i) (bOf i), bind, Except.bind, elemA,
     mergeResult_elem q i done rest _ (bOf i) hq1 hq2 hg.1 hg.2.2.1 hg.2.2.2, List.append_nil, elemAB,
     List.cons_append]
 
